@@ -322,6 +322,13 @@ def check_c01(model, rep, tier):
     r_uid_format(model, rep)
     r_paths(model, rep)
     r_io_chain(model, rep)
+    # the forest that is written is the one add() built: a refused add() that leaves a trace (an id claimed in a container, a
+    # child taken from its previous parent) makes dump() write child lists without entries, which load() cannot read
+    from .forest import builder_refs as _brefs
+    from .atomic import check_atomic as _catomic
+    from .validation import _install_validate_summary as _ivs
+    _ivs(model)
+    _catomic(model, rep, "R-ADD-ATOMIC", model.own_method("composeinfo.VariantBase", "add"), _brefs(model))
     rep.floor("R-SCHEMA", 60)
 
 
